@@ -64,3 +64,14 @@ def host_impl(x: int = Option("X")) -> tuple:                           # .overl
 
 
 DECORATOR_FORMS = [deco, host]
+_IMPL_X = overloaded.overloads.lookup[1]
+ALL_DATASETS = [plain, overloaded, _IMPL_X, inner, outer, nocache, derived, deco, host, host_impl]
+
+
+def reset_caches():
+    """The graphs are module-level and long-lived: forget everything stored by earlier runs (each symbolic path starts cold)."""
+    del EFFECT_LOG[:]
+    for d in ALL_DATASETS:
+        store = getattr(d.cache, "_cache", None)
+        if store is not None:
+            store.clear()
